@@ -528,6 +528,93 @@ fn cv_stale_entries(e: &'static Engine, workers: usize, stale: &'static str, liv
     e.note(&format!("stale={} live={}", stale, live));
 }
 
+/// the condvar's mutex is poisoned while a party waits: the notifier panics holding the lock (after it has notified).
+/// wait / wait_timeout then return Err(PoisonError(guard)) - with the mutex re-acquired, as std does. The waiter recovers
+/// the guard and uses it while another party takes the (poisoned) lock too: never both inside.
+fn cv_poisoned(e: &'static Engine, workers: usize, waiter: char, timed: bool) {
+    rt_init(workers);
+    let p = Arc::new(Pair { m: Mutex::new(0), cv: Condvar::new() });
+    e.begin();
+    let p1 = p.clone();
+    let w = spawn_part(e, waiter, move || {
+        let mut g = p1.m.lock().unwrap_or_else(|x| x.into_inner());
+        enter();
+        while *g == 0 {
+            leave();
+            WAITING.fetch_add(1, Ordering::SeqCst);
+            g = if timed {
+                match p1.cv.wait_timeout(g, Duration::from_millis(3)) {
+                    Ok((g, _)) => g,
+                    Err(x) => x.into_inner().0,
+                }
+            } else {
+                match p1.cv.wait(g) {
+                    Ok(g) => g,
+                    Err(x) => x.into_inner(),
+                }
+            };
+            WAITING.fetch_sub(1, Ordering::SeqCst);
+            enter();
+        }
+        // the waiter believes it holds the mutex
+        e.sched_point();
+        *g += 1;
+        RETURNED.fetch_add(1, Ordering::SeqCst);
+        leave();
+        drop(g);
+    });
+    e.quiesce();
+    let p2 = p.clone();
+    let n = go!(move || {
+        let mut g = p2.m.lock().unwrap();
+        enter();
+        *g += 1;
+        p2.cv.notify_one();
+        leave();
+        std::panic::panic_any(55u32);
+    });
+    let p3 = p.clone();
+    let l = e.spawn("locker", move || {
+        let mut g = p3.m.lock().unwrap_or_else(|x| x.into_inner());
+        enter();
+        e.sched_point();
+        *g += 10;
+        leave();
+        drop(g);
+    });
+    let _ = n.join();
+    if join_part(e, w).is_err() {
+        e.fail("unexpected_panic", "the waiter panicked");
+    }
+    e.join(l);
+    if DOUBLE.load(Ordering::SeqCst) {
+        e.fail("mutex_held_on_return", "two participants were inside the mutex: wait returned without holding it");
+    }
+    if RETURNED.load(Ordering::SeqCst) != 1 {
+        e.fail("lost_notification", "the waiter did not come back");
+    }
+    match p.m.try_lock() {
+        Err(std::sync::TryLockError::WouldBlock) => e.fail("mutex_not_released", "all participants are done but the mutex is not free"),
+        Ok(g) => {
+            if *g != 12 {
+                e.fail("lost_update", &format!("value {} after the three critical sections", *g));
+            }
+        }
+        Err(std::sync::TryLockError::Poisoned(x)) => {
+            if **x.get_ref() != 12 {
+                e.fail("lost_update", &format!("value {} after the three critical sections", **x.get_ref()));
+            }
+        }
+    }
+    // and the lock still works for a blocking locker
+    let p4 = p.clone();
+    let t = e.spawn("late_locker", move || {
+        let _g = p4.m.lock().unwrap_or_else(|x| x.into_inner());
+    });
+    e.join(t);
+    e.note("ok");
+}
+
 fn mk_cv(workers: usize, parts: &'static [(char, &'static str)], main_ops: &'static str, cancel: Option<usize>) -> Scenario {
     let name = format!(
         "condvar.{}.main{}{}{}",
@@ -564,6 +651,10 @@ pub fn build(quick: bool) -> Vec<Scenario> {
         v.push(Scenario::new("C11", "condvar_forward", format!("condvar.forward.timeout.notifier_holds_mutex.w{}", w), Arc::new(move |e| cv_forward(e, w, false, true))).vt_horizon(50_000_000));
         v.push(Scenario::new("C11", "condvar_forward", format!("condvar.forward.cancel.notifier_holds_mutex.w{}", w), Arc::new(move |e| cv_forward(e, w, true, true))).vt_horizon(50_000_000));
         v.push(mk_cv(w, &[('C', "W"), ('C', "n")], "", None));
+    }
+    // the mutex gets poisoned while a party waits
+    for (w, kind, timed) in [(1usize, 'C', false), (2, 'C', false), (1, 'T', false), (1, 'C', true), (2, 'T', true)] {
+        v.push(Scenario::new("C11", "condvar_poisoned", format!("condvar.mutex_poisoned_while_waiting.{}{}.w{}", kind, if timed { ".wait_timeout" } else { "" }, w), Arc::new(move |e| cv_poisoned(e, w, kind, timed))).vt_horizon(50_000_000));
     }
     // abandoned queue entries in front of a live waiter
     for (w, stale, live) in [(1usize, "TT", 'C'), (1, "XX", 'C'), (2, "TX", 'T'), (1, "TTT", 'T'), (2, "XTX", 'C'), (1, "T", 'C'), (1, "X", 'T')] {
